@@ -98,98 +98,22 @@ def run(prog: Program, col: Collector, tier: str, refs: Optional[Refs] = None, c
 
 
 def _protocol(col: Collector, f: Func, attr: str, refs: Refs):
+    """Path-sensitive find-or-add verification (funsorlint/protocol.py): every entry->return path is executed symbolically."""
+    from ..protocol import FindOrAdd
     tabs = _table_accesses(f, attr)
-    mod = f.module
+    construct = f"{f.fq}::{attr}"
     if not tabs:
         col.violation(f"{f.fq}::intern table", f"the interning function no longer consults `{attr}`: equal arguments build distinct objects", f.loc())
         return
-    lookups, inserts, gets, contains = [], [], [], []
-    for t in tabs:
-        p = mod.parent.get(t)
-        if isinstance(p, ast.Subscript) and p.value is t:
-            (inserts if isinstance(p.ctx, ast.Store) else lookups).append(p)
-        elif isinstance(p, ast.Compare) and t in p.comparators:
-            contains.append(p)
-        elif isinstance(p, ast.Attribute) and p.attr == "get":
-            c = mod.parent.get(p)
-            if isinstance(c, ast.Call):
-                gets.append(c)
-        elif isinstance(p, ast.Attribute) and p.attr in ("setdefault",):
-            c = mod.parent.get(p)
-            if isinstance(c, ast.Call):
-                gets.append(c)
-                inserts.append(c)
-    key_exprs = [s.slice for s in lookups + [i for i in inserts if isinstance(i, ast.Subscript)]] + [c.left for c in contains] + [g.args[0] for g in gets if g.args]
-    key_names = {k.id for k in key_exprs if isinstance(k, ast.Name)}
-    construct = f"{f.fq}::{attr}"
-    if any(not isinstance(k, ast.Name) for k in key_exprs):
-        bad = [norm(k) for k in key_exprs if not isinstance(k, ast.Name)]
-        col.violation(f"{construct}::one key", f"the table is indexed with a derived expression {bad} instead of the key that was looked up", f.loc())
-        return
-    if len(key_names) != 1:
-        col.violation(f"{construct}::one key", f"lookup and insert use different keys {sorted(key_names)}: an object is filed under a key it will never be found by", f.loc())
-        return
-    key = key_names.pop()
-    # no definition of the key lies between two table accesses (def-use identity of lookup key and insert key)
-    defs = [n for n in walk_no_nested(f.node) if isinstance(n, ast.Name) and n.id == key and isinstance(n.ctx, ast.Store)]
-    cfg = CFG(f.node)
-    acc_nodes = [b for t in tabs for b in cfg.nodes_for(_stmt_of(mod, t)) if b.idx in cfg.reachable()]
-    single = True
-    for d in defs:
-        for dn in cfg.nodes_for(_stmt_of(mod, d)):
-            after_access = any(_reaches(cfg, a, dn) for a in acc_nodes)
-            before_access = any(_reaches(cfg, dn, a) for a in acc_nodes)
-            if after_access and before_access:
-                single = False
-    if key not in f.params and not defs:
-        single = False
-    col.check(single, f"{construct}::one key", f"`{key}` has one definition that dominates lookup and insert",
-              f"the key `{key}` is re-defined between lookup and insert (def-use identity broken)", f.loc())
-    if not (lookups or gets) or not (contains or gets or _try_keyerror(f, lookups)):
-        col.violation(f"{construct}::lookup", "no lookup before construction: every call builds a new object", f.loc())
-    else:
-        col.ok(f"{construct}::lookup", "hit path reads the table under the key", f.loc())
-    if not inserts:
-        col.violation(f"{construct}::insert", "constructed objects are never inserted: equal arguments build distinct objects", f.loc())
-        return
-    # every return of a non-table value must be dominated by an insert whose value is what is returned
-    ins_stmts = [_stmt_of(mod, i) for i in inserts]
-    inserted_names = set()
-    for st in ins_stmts:
-        if isinstance(st, ast.Assign):
-            if isinstance(st.value, ast.Name):
-                inserted_names.add(st.value.id)
-            for t in st.targets:
-                if isinstance(t, ast.Name):
-                    inserted_names.add(t.id)  # chained  v = T[k] = new
-    rets = [n for n in walk_no_nested(f.node) if isinstance(n, ast.Return) and n.value is not None]
-    for r in rets:
-        rv = r.value
-        if isinstance(rv, ast.Subscript) and isinstance(rv.value, ast.Attribute) and rv.value.attr == attr:
-            col.ok(f"{construct}::{norm(r)}", "hit path returns the cached object", f.loc(r), nontrivial=False)
-            continue
-        rn = cfg.nodes_for(r)
-        dominated = any(cfg.dominates(i, x) for st in ins_stmts for i in cfg.nodes_for(st) for x in rn)
-        hit_name = _assigned_from_table(f, rv, attr) if isinstance(rv, ast.Name) else False
-        if isinstance(rv, ast.Name) and rv.id in inserted_names:
-            if dominated or hit_name:
-                # either the insert is on every path to this return, or on the other paths the name holds the cached hit
-                ok = dominated or _miss_guarded(f, mod, rv.id, ins_stmts, r)
-                col.check(ok, f"{construct}::{norm(r)}", "the returned object is the inserted one (insert on every constructing path)",
-                          "a path returns a newly constructed object without inserting it", f.loc(r))
-            else:
-                col.violation(f"{construct}::{norm(r)}", "a path returns a newly constructed object without inserting it into the intern table", f.loc(r))
-        else:
-            if dominated:
-                col.violation(f"{construct}::{norm(r)}", f"returns `{norm(rv)}`, not the value that was inserted ({sorted(inserted_names)}): the cached and returned objects differ", f.loc(r))
-            else:
-                col.violation(f"{construct}::{norm(r)}", f"returns `{norm(rv)}` without consulting or filling the intern table", f.loc(r))
-    # the inserted value is not re-bound between insert and return
-    for st in ins_stmts:
-        if isinstance(st, ast.Assign) and isinstance(st.value, ast.Name):
-            later = [n for n in walk_no_nested(f.node) if isinstance(n, ast.Name) and n.id == st.value.id and isinstance(n.ctx, ast.Store) and n.lineno > st.lineno]
-            col.check(not later, f"{construct}::inserted value stable", "the inserted name is not re-bound afterwards",
-                      f"`{st.value.id}` is re-bound after being inserted: the returned object is not the cached one", f.loc(st))
+    fa = FindOrAdd(f, lambda e: isinstance(e, ast.Attribute) and e.attr == attr, attr)
+    for fd in fa.run():
+        col.add(fd.status, f"{construct}::{fd.role}", fd.detail, f.loc(fd.node) if fd.node is not None else f.loc())
+    col.cur.analysed.setdefault("paths", {})[f.fq] = {"paths": fa.n_paths, "pruned_infeasible": fa.n_pruned, "hit": fa.n_hit, "miss": fa.n_miss}
+    if not any(x.status == "violation" for x in fa.findings):
+        if fa.n_hit == 0:
+            col.violation(f"{construct}::hit path", "no path returns the table's entry for a key that is present: every call builds a new object", f.loc())
+        if fa.n_miss == 0:
+            col.violation(f"{construct}::miss path", "no path inserts a newly built object: equal arguments build distinct objects", f.loc())
 
 
 def _stmt_of(mod, node):
@@ -420,10 +344,20 @@ def _only_reflect(prog: Program, col: Collector, refs: Refs, cat: Catalogue):
                     and f.value.func.id == "super" and len(f.value.args) == 2 and refs.resolve(f.value.args[0]) == fmeta:
                 col.check(where == "funsor.terms::reflect", construct, "the single raw construction, inside reflect",
                           "a term is instantiated with type.__call__ outside reflect: it bypasses the cons cache (two equal terms, one not interned)", mod.loc(n))
-            elif isinstance(f, ast.Attribute) and f.attr in ("__new__",) and isinstance(f.value, ast.Name) and f.value.id in ("object", "type") and n.args:
+            elif isinstance(f, ast.Attribute) and f.attr in ("__new__",) and n.args:
                 a0 = refs.resolve(n.args[0]) if isinstance(n.args[0], (ast.Name, ast.Attribute)) else None
                 if a0 in cat.term_classes:
-                    col.violation(construct, "object.__new__ on a term class bypasses the cons cache", mod.loc(n))
+                    col.violation(construct, "__new__ on a term class bypasses the cons cache", mod.loc(n))
+                else:
+                    # object.__new__(type(x)) / x.__class__ where x is known (isinstance test / self of a term class) to be a term
+                    a = n.args[0]
+                    inner = None
+                    if isinstance(a, ast.Call) and isinstance(a.func, ast.Name) and a.func.id == "type" and len(a.args) == 1:
+                        inner = a.args[0]
+                    elif isinstance(a, ast.Attribute) and a.attr == "__class__":
+                        inner = a.value
+                    if isinstance(inner, ast.Name) and _known_term(prog, cat, refs, mod, n, inner.id):
+                        col.violation(construct, f"`{norm(n)}` allocates a second instance of the class of a term without going through the interning constructor", mod.loc(n))
             elif isinstance(f, ast.Attribute) and f.attr == "__call__" and isinstance(f.value, ast.Name) and f.value.id == "type" and n.args:
                 a0 = refs.resolve(n.args[0]) if isinstance(n.args[0], (ast.Name, ast.Attribute)) else None
                 if a0 in cat.term_classes or mod.name == "funsor.terms":
@@ -457,6 +391,25 @@ def _only_reflect(prog: Program, col: Collector, refs: Refs, cat: Catalogue):
                 ff = prog.func_of(n)
                 if ff is not None:
                     _check_meta_call(col, ff, refs)
+
+
+def _known_term(prog: Program, cat: Catalogue, refs: Refs, mod, node, name: str) -> bool:
+    """Is local `name` known to hold a term in the function enclosing node?  (isinstance test on it, or `self` of a term class)"""
+    fn = mod.enclosing_function(node)
+    if fn is None:
+        return False
+    f = prog.func_of(fn)
+    if f is not None and f.cls is not None and f.cls.fq in cat.term_classes and f.positional and f.positional[0] == name:
+        return True
+    for x in ast.walk(fn):
+        if isinstance(x, ast.Call) and isinstance(x.func, ast.Name) and x.func.id == "isinstance" and len(x.args) == 2 \
+                and isinstance(x.args[0], ast.Name) and x.args[0].id == name:
+            cands = x.args[1].elts if isinstance(x.args[1], ast.Tuple) else [x.args[1]]
+            for c in cands:
+                r = refs.resolve(c) if isinstance(c, (ast.Name, ast.Attribute)) else None
+                if r in cat.term_classes:
+                    return True
+    return False
 
 
 def _check_meta_call(col: Collector, m: Func, refs: Refs):
